@@ -41,6 +41,11 @@ def cases(tier, seed):
     # end to end: real group members, the same leader assigning twice with a partition added in between
     for i in range({"quick": 24, "thorough": 600}[tier]):
         out.append(dict(kind="e2e", seed=seed * 1000003 + 1500000 + i, profile="grow" if i % 3 else "rebalance"))
+    # ... and faults on the leader's partition lookup
+    from . import c17
+    md = [c for c in c17.cases(tier, seed) if len(c["word"]) == 1 and c["word"][0][0] == "Metadata"]
+    for c in md[:{"quick": 40, "thorough": 400}[tier]]:
+        out.append(dict(kind="e2e", seed=c["seed"], profile="c17", c17=c))
     return out
 
 
